@@ -127,7 +127,7 @@ class Func:
         n = self.deref(n)
         if not isinstance(n, dict):
             return
-        for key in ("fn", "obj", "base", "sub", "lhs", "rhs", "c", "a", "b", "idx", "v", "init", "ctor"):
+        for key in ("fn", "obj", "base", "sub", "lhs", "rhs", "c", "a", "b", "idx", "v", "init", "ctor", "asize"):
             if key in n and isinstance(n[key], dict):
                 yield n[key]
         for key in ("args", "ch", "place", "outs", "ins"):
@@ -240,6 +240,8 @@ class Func:
             return "sizeof=%s" % n.get("cv", "?")
         if k == "member":
             base = self.strip(n["base"])
+            if not n["n"]:
+                return T(n["base"])
             if base and base.get("k") == "this":
                 return n["n"]
             return "%s%s%s" % (T(n["base"]), "->" if n.get("arrow") else ".", n["n"])
